@@ -5,8 +5,8 @@ from harness import campaign, observe, strategies
 
 ID = "C09"
 LEVEL = "exploration"
-RULE = ("Hypothesis draws RunSpecs (all optimizers x tasks of every encoding x configs incl. early stopping, perturbed parameters and list-valued ranges given high-to-low x seeds x "
-        "all three modes), plus calls that raise (unknown mode string, non-positive workers, and whatever input "
+RULE = ("Hypothesis draws RunSpecs (all optimizers x tasks of every encoding x configs incl. early stopping, perturbed parameters and list-valued ranges given high-to-low x seeds (one task in four unseeded) x "
+        "all three modes x the debug switch (one run in five)), plus calls that raise (unknown mode string, non-positive workers, and whatever input "
         "crashes the algorithm). A deep structural snapshot (recursive over pydantic fields incl. private attributes, "
         "lists, dicts, numpy arrays; types and float bit patterns preserved) of the caller's config object and task "
         "object is taken before and after optimize() and compared field by field; optimizer.configuration must still "
@@ -20,10 +20,10 @@ BUDGET = {"quick": 15, "thorough": 200}
 @st.composite
 def case(draw, optimizer, tier):
     spec = draw(strategies.run_spec(
-        optimizer, task=strategies.task_spec(array_rows=0.3),
+        optimizer, task=strategies.task_spec(array_rows=0.3, seeded="mostly"),
         config=strategies.config_spec(optimizer, max_cycles=(1, 6 if tier == "quick" else 15), perturb=0.4,
                                       reverse_lists=True),
-        modes=("serial",) * 8 + ("thread", "process")))
+        modes=("serial",) * 8 + ("thread", "process"), debug=0.2))
     bad = draw(st.sampled_from([None] * 8 + ["mode", "workers"]))
     if bad == "mode":
         spec["mode"] = draw(st.sampled_from(["Serial", "parallel", "x"]))
